@@ -78,6 +78,7 @@ class PolicyModel:
         # query methods: which dereference the rule set without a membership test
         self.deref = set()
         self.query_field = {}
+        self.guard_quality = {}
         for name, m in ((n.name, n) for n in self.cls.body if isinstance(n, ast.FunctionDef)):
             if not name.startswith('is_attribute'):
                 continue
@@ -87,9 +88,46 @@ class PolicyModel:
                     guarded = True
             if not guarded:
                 self.deref.add(name)
+            self.guard_quality[name] = self._guard_quality(m)
             flds = sorted(set(x.attr for x in walk_local(m) if isinstance(x, ast.Attribute) and isinstance(x.value, ast.Name)
                               and x.value.id == 'rule_set'))
             self.query_field[name] = flds
+
+    def _guard_quality(self, m):
+        """How a query method treats the attribute name it is given: list of problems (empty = the membership test and every rule-set lookup use
+        the name parameter itself, unmodified)."""
+        from .cfg import CFG
+        from .dataflow import ReachingDefs
+        a = [x.arg for x in m.args.args]
+        if len(a) < 2:
+            return ['no attribute-name parameter']
+        pname = a[1]
+        g = CFG(m)
+        rd = ReachingDefs(g)
+        probs = []
+        from .cfg import expr_nodes
+        for n in g.nodes:
+            for e in expr_nodes(n):
+                for x in ast.walk(e):
+                    key = None
+                    if isinstance(x, ast.Compare) and isinstance(x.ops[0], (ast.NotIn, ast.In)) and '_attribute_rule_sets' in U(x.comparators[0]):
+                        key = x.left
+                        what = 'membership test'
+                    elif isinstance(x, ast.Call) and isinstance(x.func, ast.Attribute) and x.func.attr == 'get' and '_attribute_rule_sets' in U(x.func.value) and x.args:
+                        key = x.args[0]
+                        what = 'rule-set lookup'
+                    elif isinstance(x, ast.Subscript) and '_attribute_rule_sets' in U(x.value):
+                        key = x.slice
+                        what = 'rule-set lookup'
+                    if key is None:
+                        continue
+                    if not (isinstance(key, ast.Name) and key.id == pname):
+                        probs.append('%s at line %d uses %s, not the name parameter %s' % (what, x.lineno, U(key), pname))
+                        continue
+                    defs = rd.reaching(n, pname)
+                    if any(d[2] is not None for d in defs):
+                        probs.append('%s at line %d uses %s after it was reassigned (line %s)' % (what, x.lineno, pname, sorted(d[2].line for d in defs if d[2] is not None)))
+        return probs
 
     def flag(self, name, param):
         return self.rules[name].get(param)
